@@ -296,7 +296,7 @@ def run_harness(sub, seed, n, tier, extra=None, only=None, timeout=3000):
         cmd += extra
     env = dict(os.environ)
     env["VERIF_HARNESS_BIN"] = HARNESS_BIN
-    if sub in ("c11", "c04", "c09"):
+    if sub in ("c11", "c04", "c09", "c06", "c13", "c14", "c15", "c16"):
         rc0, out0 = build_cli()
         if rc0 != 0:
             return rc0, "goalign build failed:\n" + out0, prefix, []
